@@ -16,6 +16,11 @@
 (* the property defines the result (AddAmpDefined / MulAmpDefined false,   *)
 (* non-finite float arguments, out-of-range integer arguments) carry NO    *)
 (* claim: they are accepted whatever the code did, panics included.        *)
+(* EXCEPT the gain 1.0 (round 4): C03 claims "scaling by 1.0 returns the   *)
+(* same sample ... within that float precision" for EVERY value, so scale  *)
+(* / mul / in-place add-with-gain by exactly 1.0 are judged on the top     *)
+(* values of i32 u32 i64 u64 too, whose float image is +1.0 (Frames.tla,   *)
+(* MulAmpOk / AddMulOk).                                                   *)
 (* Event formats: harness/hx_frame/src/main.rs.                            *)
 (***************************************************************************)
 EXTENDS Slices, TLC, Json, IOUtils, FiniteSets
@@ -23,7 +28,7 @@ EXTENDS Slices, TLC, Json, IOUtils, FiniteSets
 Rec == ndJsonDeserialize(IOEnv.TRACE)
 
 NW(n) == IF n = 0 THEN 1 ELSE n                  \* "n": 0 names the bare sample used as a frame
-FltOf(f) == FmtOf(FloatOf(f))
+\* (FltOf: Frames.tla)
 
 ---------------------------------------------------------------------------
 (* decoding *)
@@ -65,7 +70,9 @@ OkSample(e) ==
        [] e.ev = "s_mul_amp" ->
             /\ WF(f, e.a.s) /\ WF(ff, e.a.amp)
             /\ LET s == SVal(f, e.a.s) g == SVal(ff, e.a.amp) IN
-               Claim(InDom(f, s) /\ InDom(ff, g) /\ MulAmpDefined(f, s, g), IsVal(f, e.r, MulAmp(f, s, g)))
+               \* a function where the product lies in [-1, 1); the gain 1.0 is claimed on EVERY value (Frames.tla, MulAmpOk)
+               Claim(InDom(f, s) /\ InDom(ff, g) /\ MulAmpClaimed(f, s, g),
+                     e.r.k = "val" /\ WF(f, e.r.v) /\ MulAmpOk(f, s, g, SVal(f, e.r.v)))
        [] e.ev = "s_to_signed" ->
             /\ WF(f, e.a.s)
             /\ Claim(InDom(f, SVal(f, e.a.s)), IsVal(sf, e.r, Conv(f, sf, SVal(f, e.a.s))))
@@ -88,7 +95,8 @@ OkFrame(e) ==
        [] e.ev = "f_scale" ->
             /\ WFSeq(f, e.a.x, n) /\ WF(ff, e.a.amp)
             /\ LET x == FVal(f, e.a.x) g == SVal(ff, e.a.amp) IN
-               Claim(InDomSeq(f, x) /\ InDom(ff, g) /\ FrScaleDefined(f, x, g), IsValSeq(f, e.r, FrScale(f, x, g)))
+               Claim(InDomSeq(f, x) /\ InDom(ff, g) /\ FrScaleClaimed(f, x, g),
+                     e.r.k = "val" /\ WFSeq(f, e.r.v, n) /\ FrScaleOk(f, x, g, FVal(f, e.r.v)))
        [] e.ev = "f_add" ->
             /\ WFSeq(f, e.a.x, n) /\ WFSeq(sf, e.a.y, n)
             /\ LET x == FVal(f, e.a.x) y == FVal(sf, e.a.y) IN
@@ -96,7 +104,8 @@ OkFrame(e) ==
        [] e.ev = "f_mul" ->
             /\ WFSeq(f, e.a.x, n) /\ WFSeq(ff, e.a.y, n)
             /\ LET x == FVal(f, e.a.x) y == FVal(ff, e.a.y) IN
-               Claim(InDomSeq(f, x) /\ InDomSeq(ff, y) /\ FrMulDefined(f, x, y), IsValSeq(f, e.r, FrMul(f, x, y)))
+               Claim(InDomSeq(f, x) /\ InDomSeq(ff, y) /\ FrMulClaimed(f, x, y),
+                     e.r.k = "val" /\ WFSeq(f, e.r.v, n) /\ FrMulOk(f, x, y, FVal(f, e.r.v)))
        [] e.ev = "f_to_signed" ->
             /\ WFSeq(f, e.a.x, n)
             /\ Claim(InDomSeq(f, FVal(f, e.a.x)), IsValSeq(sf, e.r, FrToSigned(f, FVal(f, e.a.x))))
@@ -243,8 +252,10 @@ OkInPlace(e) ==
               [] op = "add_amp" ->
                    /\ e.o.afl = af /\ WFSeq(af, e.a.ampf, n)
                    /\ LET amp == FVal(af, e.a.ampf) IN
-                      Claim(InDomFrames(f, a) /\ InDomFrames(sf, b) /\ InDomSeq(af, amp) /\ SlAddAmpDefined(f, a, b, amp),
-                            e.r.k = "unit" /\ FramesAre(f, e.o.after, SlAddAmp(f, a, b, amp).a, n))
+                      \* (= `after = SlAddAmp(f, a, b, amp).a` wherever SlAddAmpDefined; also claimed for the gain 1.0 on the
+                      \* top values of the Signed format, Slices.tla SlAddAmpOk)
+                      Claim(InDomFrames(f, a) /\ InDomFrames(sf, b) /\ InDomSeq(af, amp) /\ SlAddAmpClaimed(f, a, b, amp),
+                            e.r.k = "unit" /\ WFFrames(f, e.o.after, e.a.la, n) /\ SlAddAmpOk(f, a, b, amp, FFVal(f, e.o.after)))
 
 ---------------------------------------------------------------------------
 SampleEvs == {"s_add_amp", "s_mul_amp", "s_to_signed", "s_to_float", "s_consts"}
